@@ -717,6 +717,7 @@ macro_rules! c10 {
         #[kani::stub(std::vec::Vec::new, crate::vstubs::vec_new_small)]
         #[kani::stub(std::vec::Vec::push, crate::vstubs::vec_push)]
         #[kani::stub(core::slice::sort::unstable::sort, crate::vstubs::sort_unstable)]
+        #[kani::stub(core::slice::sort::stable::sort, crate::vstubs::sort_stable)]
         fn $name() {
             c10_body::<$n, $m, $nm>($lines, $cols)
         }
